@@ -17,4 +17,4 @@ for ID in "$@"; do
 done
 git -C /repo worktree remove --force $WT
 K=$(echo "$WT" | cksum | cut -d" " -f1)
-rm -rf $OUT /verif/.work/alt-$K /verif/.work/seam-$K* /verif/.work/bin/check-*-$K
+rm -rf $OUT /verif/.work/alt-$K /verif/.work/seam-*-$K /verif/.work/bin/check-*-$K
